@@ -11,6 +11,7 @@ Inductive val :=
 | VUndef | VNaN | VNum (n : Z) | VBool (b : bool)
 | VRefErr          (* a ReferenceError object *)
 | VHalt            (* the host's interrupt panic *)
+| VHaltCaught      (* the same after a JavaScript try has recovered and re-thrown it (an ordinary exception now) *)
 | VBig             (* a number outside the modelled range |n| < 2^53 *)
 | VOther.          (* anything the harness cannot classify *)
 
@@ -159,6 +160,8 @@ Fixpoint eval (s : state) (e : expr) {struct e} : state * (val + val) :=
     end
   end.
 
+Definition recatch (v : val) : val := match v with VHalt => VHaltCaught | _ => v end.
+
 (* ---- whole programs ---- *)
 Definition prog := list (stmt expr).
 
@@ -190,10 +193,10 @@ Definition outcome_s (r : sres val) : outcome :=
   end.
 
 Definition run_o (fuel : nat) (declared : list nat) (halt : Z) (p : prog) : state * list label * outcome :=
-  match exec_o eval truthy tick fuel (init_state declared halt) [] (SBlock p) with
+  match exec_o eval truthy tick recatch fuel (init_state declared halt) [] (SBlock p) with
   | (s, L, r) => (s, L, outcome_o r)
   end.
 Definition run_s (fuel : nat) (declared : list nat) (halt : Z) (p : prog) : state * outcome :=
-  match exec_s eval truthy tick fuel (init_state declared halt) [] (SBlock p) with
+  match exec_s eval truthy tick recatch fuel (init_state declared halt) [] (SBlock p) with
   | (s, r) => (s, outcome_s r)
   end.
